@@ -11,8 +11,10 @@ Open Scope Z_scope.
 Definition serves (c : config) (p : nat) (h : Z) : bool :=
   (h <=? c_adv c p) && match c_beh c p h with ROk => true | _ => false end.
 
+(** the request for h to p ends with an error (refusal, malformed answer, a
+    block of another height, or silence until the stream deadline) *)
 Definition failing (c : config) (p : nat) (h : Z) : bool :=
-  match c_beh c p h with ROk | RWrong _ => false | _ => true end.
+  match c_beh c p h with ROk => false | _ => true end.
 
 Definition servable (c : config) (h : Z) : bool :=
   existsb (fun p => serves c p h) (job_peers c).
@@ -76,40 +78,28 @@ Definition spec_no_reask_task (c : config) (tr : list obs) : bool :=
 Definition spec_all (c : config) (tr : list obs) : bool :=
   spec_delivers c tr && spec_sound c tr && spec_no_reask_task c tr.
 
-(** * First divergence, for the known-finding signatures
+(** * First divergence, for the known-finding signature
 
-    1 = within phase one a failed peer is asked again for the same height
-        (shared slice / Index aliasing between the height goroutines)
     2 = the second phase (checkTask) rebuilds the peer list and asks a peer
-        that already failed this height in phase one
-    3 = a block of another height is accepted as the answer: it is handed to
-        the blockchain and the requested height counts as downloaded
-    9 = any other violation *)
-Definition wrong_answer_for (c : config) (p : nat) (bh : Z) : bool :=
-  existsb (fun h => match c_beh c p h with RWrong b => (b =? bh) && negb (b =? h) | _ => false end)
-          (heights c).
-
-Definition height_lost_to_wrong (c : config) (tr : list obs) (h : Z) : bool :=
-  existsb (fun o => match o with
-                    | OReq h' p => (h' =? h) && match c_beh c p h with RWrong b => negb (b =? h) | _ => false end
-                    | _ => false end) tr.
-
+        that already failed this height in phase one (open finding)
+    9 = any other violation: a servable height that is not delivered, a block
+        that is outside the range or not served by its sender, a failed peer
+        asked again within phase one (the former findings 1, 3 are fixed) *)
 Fixpoint first_div (c : config) (phase : nat) (seen : list (Z * nat)) (tr full : list obs) : N :=
   match tr with
   | [] =>
       (* end of the task: completeness *)
       match filter (fun h => servable c h && negb (memZ h (delivered full))) (heights c) with
       | [] => 0%N
-      | h :: _ => if height_lost_to_wrong c full h then 3%N else 9%N
+      | _ :: _ => 9%N
       end
   | OInit _ :: tl => first_div c (S phase) seen tl full
   | OReq h p :: tl =>
       if distinct_peers c && failing c p h && pair_mem h p seen
-      then (if (phase <=? 1)%nat then 1%N else 2%N)
+      then (if (phase <=? 1)%nat then 9%N else 2%N)
       else first_div c phase ((h, p) :: seen) tl full
   | ODeliver bh p :: tl =>
-      if deliver_ok c (ODeliver bh p) then first_div c phase seen tl full
-      else if wrong_answer_for c p bh then 3%N else 9%N
+      if deliver_ok c (ODeliver bh p) then first_div c phase seen tl full else 9%N
   end.
 
 Definition first_divergence (c : config) (tr : list obs) : N := first_div c 0 [] tr tr.
